@@ -555,6 +555,205 @@ func runC20(c *Ctx) {
 			c.Undecided("core.txSortedMap#positional-index-uses", token.NoPos, "no positional use of txSortedMap.index found (Cap is expected to have some)")
 		}
 	}
+	// ------------------------------------------------------------ L9
+	c.Rule("C20.L9", "TYPESTATE", "an account's list is looked up again after anything that can re-shape the index it came from: in the methods of TxPool a value read from pool.pending[addr] or pool.queue[addr] is not used on a path that passed — after the lookup and without a new lookup — a call of a TxPool method that (transitively) inserts into or deletes from that same index (removeTx, promoteTx, enqueueTx, the executable / unexecutable sweeps). Making room in a full pool can evict a transaction of the very sender whose list was cached: the replacement then goes into a list that is no longer the pool's (a nonce gap in pending, or a transaction known to the pool but neither pending nor queued)")
+	c.Min(10)
+	{
+		poolT := w.Named("core", "TxPool")
+		idx := map[*types.Var]bool{w.Field("core", "TxPool", "pending"): true, w.Field("core", "TxPool", "queue"): true}
+		var methods []*ssa.Function
+		for _, fn := range w.FuncsIn("core") {
+			if fn.Blocks == nil || strings.HasSuffix(w.fileOf(fn.Pos()), "_test.go") {
+				continue
+			}
+			methods = append(methods, fn)
+		}
+		// which functions re-shape which index (map update / delete on the field), transitively through static calls
+		reshapes := map[*ssa.Function]map[*types.Var]bool{}
+		for _, fn := range methods {
+			for _, fw := range fieldWrites(fn) {
+				if idx[fw.Field] && (fw.Kind == "mapupdate" || fw.Kind == "delete" || fw.Kind == "store") {
+					if reshapes[fn] == nil {
+						reshapes[fn] = map[*types.Var]bool{}
+					}
+					reshapes[fn][fw.Field] = true
+				}
+			}
+		}
+		for changed := true; changed; {
+			changed = false
+			for _, fn := range methods {
+				for _, x := range withClosures(fn) {
+					for _, ci := range callInstrs(x) {
+						g := ci.Common().StaticCallee()
+						if g == nil || reshapes[g] == nil {
+							continue
+						}
+						for f := range reshapes[g] {
+							if reshapes[fn] == nil {
+								reshapes[fn] = map[*types.Var]bool{}
+							}
+							if !reshapes[fn][f] {
+								reshapes[fn][f] = true
+								changed = true
+							}
+						}
+					}
+				}
+			}
+		}
+		reaches := func(from, to, barrier *ssa.BasicBlock) bool {
+			seen := map[*ssa.BasicBlock]bool{}
+			work := append([]*ssa.BasicBlock(nil), from.Succs...)
+			for len(work) > 0 {
+				b := work[len(work)-1]
+				work = work[:len(work)-1]
+				if seen[b] || b == barrier {
+					continue
+				}
+				seen[b] = true
+				if b == to {
+					return true
+				}
+				work = append(work, b.Succs...)
+			}
+			return false
+		}
+		nLk := 0
+		for _, fn := range methods {
+			if fn.Signature.Recv() == nil || !types.Identical(deref(fn.Signature.Recv().Type()), poolT) {
+				continue
+			}
+			k := 0
+			for _, b := range fn.Blocks {
+				for _, in := range b.Instrs {
+					lk, ok := in.(*ssa.Lookup)
+					if !ok {
+						continue
+					}
+					f, _ := loadedField(stripConv(lk.X))
+					if !idx[f] {
+						continue
+					}
+					// the looked-up list value (commaOk lookups: component 0)
+					var val ssa.Value = lk
+					if lk.CommaOk {
+						val = nil
+						for _, r := range *lk.Referrers() {
+							if ex, isEx := r.(*ssa.Extract); isEx && ex.Index == 0 {
+								val = ex
+							}
+						}
+					}
+					if val == nil || val.Referrers() == nil {
+						continue
+					}
+					nLk++
+					c.sites++
+					c.sawFunc(fname(fn))
+					bad := ""
+					for _, ci := range callInstrs(fn) {
+						g := ci.Common().StaticCallee()
+						if g == nil || reshapes[g] == nil || !reshapes[g][f] {
+							continue
+						}
+						cin := ci.(ssa.Instruction)
+						for _, u := range *val.Referrers() {
+							if _, isDbg := u.(*ssa.DebugRef); isDbg {
+								continue
+							}
+							if _, isPhi := u.(*ssa.Phi); isPhi {
+								continue
+							}
+							// nil tests of the stale value are harmless only if nothing else follows; count every other use
+							if bo, isB := u.(*ssa.BinOp); isB && (bo.Op == token.EQL || bo.Op == token.NEQ) {
+								continue
+							}
+							stale := false
+							switch {
+							case cin.Block() == b && u.Block() == b:
+								stale = instrIndex(in) < instrIndex(cin) && instrIndex(cin) < instrIndex(u)
+							case cin.Block() == b:
+								// the call follows the lookup in its block; the use is elsewhere
+								stale = instrIndex(in) < instrIndex(cin) && reaches(b, u.Block(), b)
+							case u.Block() == b:
+								// entering the lookup's block re-reads the index before the use
+								stale = false
+							case u.Block() == cin.Block():
+								stale = instrIndex(cin) < instrIndex(u) && (b.Dominates(cin.Block()))
+							default:
+								stale = b.Dominates(cin.Block()) && reaches(cin.Block(), u.Block(), b)
+							}
+							if stale && bad == "" {
+								bad = fmt.Sprintf("%s at %s, then used at %s", g.Name(), w.Pos(ci.Pos()), w.Pos(u.Pos()))
+							}
+						}
+					}
+					c.Check(fmt.Sprintf("%s#%s-lookup-%d-not-used-after-reshaping", fname(fn), f.Name(), k), lk.Pos(), bad == "", ifelse(bad == "", "no use of the looked-up list after a call that re-shapes the index", "the list read from pool."+f.Name()+" is used after the index may have been re-shaped ("+bad+") without being looked up again: the account's list may have been replaced or deleted meanwhile, so the transaction lands in a list that is no longer the pool's"))
+					k++
+				}
+			}
+		}
+		if nLk == 0 {
+			c.Undecided("core.TxPool#index-lookups", token.NoPos, "no lookup in pool.pending / pool.queue found")
+		}
+	}
+
+	// ------------------------------------------------------------ L10
+	c.Rule("C20.L10", "GATE", "the pool follows every head the chain announces — also a sibling of equal height or a lower block after a rewind: in (*TxPool).loop the reset request for a received chain-head event depends on nothing in the event but the presence of a block (ev.Block != nil). Filtering heads by number leaves the pool describing an abandoned head: transactions the sibling already included stay pending and are handed to the block builder, dropped ones are not re-injected")
+	c.Min(1)
+	{
+		lp := w.Fn("core", "TxPool", "loop")
+		c.sawFunc(fname(lp))
+		headCh := w.Field("core", "TxPool", "chainHeadCh")
+		reqReset := w.FuncObj("core", "TxPool", "requestReset")
+		// values received from chainHeadCh: a select state on the channel, or a plain receive
+		isEvent := func(v ssa.Value) bool {
+			return derivesFrom(v, func(x ssa.Value) bool {
+				switch y := x.(type) {
+				case *ssa.Select:
+					for _, st := range y.States {
+						if f, _ := loadedField(stripConv(st.Chan)); f == headCh {
+							return true
+						}
+					}
+				case *ssa.UnOp:
+					if y.Op == token.ARROW {
+						if f, _ := loadedField(stripConv(y.X)); f == headCh {
+							return true
+						}
+					}
+				}
+				return false
+			})
+		}
+		n := 0
+		for _, ci := range callsTo(lp, reqReset) {
+			n++
+			c.sites++
+			bad := ""
+			for _, a := range atomsOf(factsAtInstr(ci.(ssa.Instruction))) {
+				fromEv := isEvent(a.X) || (a.Y != nil && isEvent(a.Y))
+				if !fromEv {
+					continue
+				}
+				// which select case was taken is not a property of the event
+				if _, isSel := stripConv(a.X).(*ssa.Extract); isSel && a.Kind == "eq" {
+					if ex := stripConv(a.X).(*ssa.Extract); ex.Index == 0 {
+						continue
+					}
+				}
+				if a.Kind == "isnil" {
+					continue
+				}
+				bad = fmt.Sprintf("%s condition on the event at the reset request", a.Kind)
+			}
+			c.Check(fmt.Sprintf("%s#every-announced-head-resets-%d", fname(lp), n), ci.Pos(), bad == "", ifelse(bad == "", "the reset depends only on ev.Block != nil", "the reset for a new head is skipped depending on the announced block itself ("+bad+"): a head switch to a block that is not higher — a sibling, an equal-length branch, a rewind — leaves pending, queue and nonces describing the abandoned head"))
+		}
+		if n == 0 {
+			c.Undecided(fname(lp)+"#every-announced-head-resets", lp.Pos(), "no requestReset call found in the pool's event loop")
+		}
+	}
 }
 
 // c20Dropped: in promoteExecutables / demoteUnexecutables / truncate*, every
